@@ -713,7 +713,7 @@ class Emitter:
                 if n == 'None':
                     return 'none', (exp if isinstance(exp, tuple) and exp[0] == 'option' else ('option', None))
                 raise TranslateError('unknown variable %s' % n)
-            if len(p) == 2 and getattr(self, 'uint_mode', False) == 'value' and p[0] == 'Self':
+            if len(p) == 2 and getattr(self, 'uint_mode', False) == 'value' and p[0] in ('Self', 'Uint'):
                 vm = {'LIMBS': ('LIMBS', 'usize'), 'BITS': ('BITS', 'usize'), 'ZERO': ('0', 'uint'),
                       'ONE': ('(1 % 2 ^ BITS)', 'uint'), 'MAX': ('(2 ^ BITS - 1)', 'uint'), 'MIN': ('0', 'uint')}
                 if p[1] in vm:
@@ -992,6 +992,9 @@ class Emitter:
             if op == '%':
                 # `a % m` on Uint panics for m = 0; the value-level term is Lean's total `%` (a for m = 0): callers guard it
                 return '(%s %% %s)' % (sa, sb), 'uint'
+            if op == '/':
+                # `a / b` on Uint panics for b = 0; the value-level term is Lean's total `/` (0 for b = 0): callers guard it
+                return '(%s / %s)' % (sa, sb), 'uint'
             raise TranslateError('operator %s on Uint values' % op)
         if op in ('==', '!=', '<', '>', '<=', '>='):
             lop = {'==': '==', '!=': '!=', '<': '<', '>': '>', '<=': '≤', '>=': '≥'}[op]
@@ -1060,12 +1063,16 @@ class Emitter:
                 parts = [self.expr(a, env, t)[0] for a, t in zip(args, sty[1])]
                 return '(' + ', '.join(parts) + ')', sty
             if name in getattr(self, 'externs', {}):
-                tmpl, rt = self.externs[name]
+                tmpl, rt = self.externs[name][0], self.externs[name][1]
                 ss = [self.expr(a, env, None)[0] for a in args]
                 return '(' + tmpl % tuple(ss) + ')', rt
             if name in self.fns:
                 return self.call_fn(self.fns[name], args, env)
             raise TranslateError('call to untranslated function %s' % name)
+        if '::'.join(path) in getattr(self, 'externs', {}):
+            tmpl, rt = self.externs['::'.join(path)][0], self.externs['::'.join(path)][1]
+            ss = [self.expr(a, env, None)[0] for a in args]
+            return '(' + tmpl % tuple(ss) + ')', rt
         if len(path) == 2 and path[0] in getattr(self, 'enums', {}):
             return self.enum_value(path, args, env, exp)
         if len(path) == 3 and path[0] == 'Self' and path[1] == 'Error' and isinstance(getattr(self, 'assoc', {}).get('Error'), tuple):
@@ -1394,6 +1401,8 @@ class Emitter:
             return False
         if e[0] == 'mcall' and e[2] in ('expect', 'unwrap'):
             return True
+        if e[0] == 'call' and ('::'.join(e[1]) in getattr(self, 'panic_externs', ()) or e[1][-1] in getattr(self, 'panic_externs', ())):
+            return True
         if e[0] == 'call' and e[1][0] == 'Self' and len(e[1]) == 2 and e[1][1] in getattr(self, 'call_alias', {}):
             sig = self.fns.get(self.call_alias[e[1][1]], ())
             return len(sig) > 7 and bool(sig[7])
@@ -1485,6 +1494,8 @@ class Emitter:
         for s in blk[1]:
             if s[0] in ('return', 'break', 'continue', 'assert'):
                 return True
+            if getattr(self, 'panics', False) and self.panic_site_in(s):
+                return True       # a panic leaves the function from here: handled like an early return
             if s[0] in ('expr', 'expr_nosemi', 'tail') and s[1][0] == 'if':
                 if self.has_return(s[1][2]) or (s[1][3] and self.has_return(s[1][3])):
                     return True
@@ -2310,6 +2321,19 @@ class Emitter:
                                 ('assign', pv, ('bin', '+', pv, ('lit', 1, 'usize')))] + stmts(st[3][1])
                         out.append(('while', ('bin', '<', pv, ('mcall', seq, 'len', [])), ('block', body)))
                         continue
+                if st[0] == 'expr' and st[1][0] == 'call' and st[1][1][-1] == 'swap' and len(st[1][2]) == 2 \
+                        and all(a[0] == 'refmut' and a[1][0] == 'path' for a in st[1][2]):
+                    # `swap(&mut a, &mut b);`
+                    a_, b_ = st[1][2][0][1], st[1][2][1][1]
+                    out.append(('assign', ('tuple', [a_, b_]), ('tuple', [b_, a_])))
+                    continue
+                if st[0] == 'expr' and st[1][0] == 'mcall' and st[1][2] in getattr(self, 'method_rewrites', {}) \
+                        and all(a[0] == 'refmut' and a[1][0] == 'path' for a in st[1][3]):
+                    # `m.apply(&mut a, &mut b);` with `apply` declared as an extern returning the new (a, b)
+                    tg = [a[1] for a in st[1][3]]
+                    out.append(('assign', ('tuple', tg) if len(tg) > 1 else tg[0],
+                                ('call', [self.method_rewrites[st[1][2]]], [ex(st[1][1])] + tg)))
+                    continue
                 if st[0] == 'let' and st[1][0] == 'pid' and st[1][1] in mutparams:
                     v = st[1][1]
                     hi = prefix_of(st[3], v)
@@ -2365,7 +2389,8 @@ class Emitter:
         rt = self.ty_deep(fn['ret'])
         self.inner_rt = rt
         self.mut_ret = None
-        self.const_generics = list(fn.get('consts', []))
+        self.const_generics = [c for c in fn.get('consts', [])
+                               if not (getattr(self, 'uint_mode', False) and c in ('BITS', 'LIMBS'))]
         muts = [n for n, t in fn['params'] if self.ty(t) == 'mutslice' or (n == 'self' and fn.get('self_mut'))]
         if muts:
             # `&mut [u64]` parameters (and `&mut self`): the function returns their final contents in front of its own result
@@ -2380,6 +2405,12 @@ class Emitter:
                 if node[0] == 'mcall' and node[2] in ('expect', 'unwrap'):
                     return True
                 if node[0] == 'assert':
+                    return True
+                if node[0] == 'call' and ('::'.join(node[1]) in getattr(self, 'panic_externs', ())
+                                          or node[1][-1] in getattr(self, 'panic_externs', ())):
+                    return True
+                if node[0] == 'mcall' and node[2] in getattr(self, 'method_rewrites', {}) \
+                        and self.method_rewrites[node[2]] in getattr(self, 'panic_externs', ()):
                     return True
                 if node[0] == 'call' and len(self.fns.get(node[1][-1], ())) > 7 and self.fns[node[1][-1]][7]:
                     return True
@@ -2554,6 +2585,8 @@ def translate(items, namespace='Ruint.Gen', imports=('Ruint.Gen.Prelude',), fns=
             em.uint_mode = it.get('uint') or False     # True: limb lists; 'value': a Uint is its numeric value
             em.externs = it.get('externs', {})
             em.call_alias = it.get('call_alias', {})
+            em.panic_externs = it.get('panic_externs', ())
+            em.method_rewrites = it.get('method_rewrites', {})
             # field-less / word-carrying enums declared in the same file (error types)
             em.enums = {}
             em.enum_fields = {}
@@ -2814,6 +2847,20 @@ def conv_items(repo):
     return out
 
 
+def gcd_value_items(repo):
+    """algorithms::gcd / gcd_extended / inv_mod in value mode (a Uint is its numeric value): the control structure of the
+    Lehmer loops over the C12 models of `LehmerMatrix::from` / `apply` (declared externs that can panic: `none`)"""
+    f = repo + '/src/algorithms/gcd/mod.rs'
+    ext = {'LehmerMatrix::from': ('Ruint.Lehmer.matFrom %s %s', ('option', MATRIX)),
+           'lehmer_apply': ('Ruint.Lehmer.apply BITS %s %s %s', ('option', ('tuple', ['uint', 'uint'])))}
+    u = {'uint': 'value', 'group': 'gcdv', 'externs': ext, 'file': f, 'structs': {'LehmerMatrix': MATRIX},
+         'gconsts': {'LehmerMatrix::IDENTITY': ('Ruint.Lehmer.ident', MATRIX)},
+         'panic_externs': ('LehmerMatrix::from', 'lehmer_apply'), 'method_rewrites': {'apply': 'lehmer_apply'}}
+    return [dict(u, fn='gcd', lean='val_gcd', key='UintV::alg_gcd'),
+            dict(u, fn='gcd_extended', lean='val_gcd_extended', key='UintV::alg_gcd_extended'),
+            dict(u, fn='inv_mod', lean='val_inv_mod', key='UintV::alg_inv_mod')]
+
+
 def radix_items(repo):
     """src/base_convert.rs: digit-sequence conversions (limb mode; errors are (variant index, fields))"""
     f = repo + '/src/base_convert.rs'
@@ -2838,7 +2885,8 @@ GROUPS = [('core', 'Words', ('Ruint.Gen.Prelude',)),
           ('uintmod', 'WordsUintMod', ('Ruint.Gen.WordsUintDiv', 'Ruint.Gen.WordsRedcLoops')),
           ('bytes', 'WordsBytes', ('Ruint.Gen.WordsUintMod', 'Ruint.Gen.PreludeBytes')),
           ('conv', 'WordsConv', ('Ruint.Gen.WordsUintMod',)),
-          ('value', 'WordsValue', ('Ruint.Gen.Prelude', 'Ruint.Model.Modular'))]
+          ('value', 'WordsValue', ('Ruint.Gen.Prelude', 'Ruint.Model.Modular')),
+          ('gcdv', 'WordsGcd', ('Ruint.Gen.Prelude', 'Ruint.Model.Gcd'))]
 
 
 def translate_all(repo):
@@ -2858,6 +2906,7 @@ def translate_all(repo):
     items += bytes_items(repo)
     items += conv_items(repo)
     items += value_items(repo)
+    items += gcd_value_items(repo)
     try:
         items += lehmer_items(repo)
     except (OSError, IOError) as ex:
